@@ -83,13 +83,22 @@ impl ClassSet {
             invert: negate_set,
             cps: codepoints,
         });
-        if self.alternatives.0.is_empty() {
-            bracket
-        } else if codepoints_empty {
-            self.alternatives.into_node(icase)
-        } else {
-            make_alt(Vec::from([self.alternatives.into_node(icase), bracket]))
+        // Strings are tried longest first, then the single code points, and the empty
+        // string (if it is a member) last.
+        let mut alternatives = self.alternatives;
+        let has_empty_string = alternatives.0.iter().any(|s| s.is_empty());
+        alternatives.0.retain(|s| !s.is_empty());
+        let mut nodes = Vec::new();
+        if !alternatives.0.is_empty() {
+            nodes.push(alternatives.into_node(icase));
         }
+        if !codepoints_empty || (nodes.is_empty() && !has_empty_string) {
+            nodes.push(bracket);
+        }
+        if has_empty_string {
+            nodes.push(ir::Node::Empty);
+        }
+        make_alt(nodes)
     }
 
     fn union_operand(&mut self, operand: ClassSetOperand) {
@@ -1230,20 +1239,16 @@ where
                         let mut alternative = Vec::new();
                         loop {
                             match self.peek() {
+                                // Note an empty alternative denotes the empty string, which is a member.
                                 Some(0x7D /* } */) => {
                                     self.consume('}');
-                                    if !alternative.is_empty() {
-                                        alternatives.push(alternative.into_boxed_slice());
-                                    }
+                                    alternatives.push(alternative.into_boxed_slice());
                                     break;
                                 }
                                 Some(0x7C /* | */) => {
                                     self.consume('|');
-                                    if !alternative.is_empty() {
-                                        let alternative = mem::take(&mut alternative).into_boxed_slice();
-                                        alternatives.push(alternative);
-
-                                    }
+                                    let alternative = mem::take(&mut alternative).into_boxed_slice();
+                                    alternatives.push(alternative);
                                 }
                                 Some(_) => {
                                     alternative.push(self.consume_class_set_character()?);
